@@ -149,6 +149,10 @@ pub enum Fault {
     Wait { proc: u32, errno: i32 },
     /// the nth attempt (0-based) to create a directory / file at `site` fails (disk full, no permission)
     Fs { site: String, nth: u32, errno: i32 },
+    /// scrut's own stdout and stderr are cut off (their reader has gone away) just before the
+    /// nth spawn: every later write fails with EPIPE - or kills the process, if SIGPIPE is not
+    /// ignored
+    OutputClosed { nth: u32 },
 }
 
 #[derive(Clone, Debug, PartialEq, Eq, Serialize, Deserialize)]
